@@ -146,14 +146,9 @@ fn gen_astral(rng: &mut Rng, ext: u32) -> [u16; 2] {
 
 fn gen_str(rng: &mut Rng, ext: u32) -> Vec<u16> {
     if rng.chance(1, 60) {
-        // last unit ends exactly at 0xFFFF (u16 overflow edge), or a string a BOM-sniffing decoder misreads
-        let v = match rng.below(4) {
-            0 => vec![(0xFFFF - ext) as u16],
-            1 => vec![gen_unit(rng, 0), (0xFFFF - ext) as u16],
-            2 if ext == 0 => vec![0xFEFF],
-            _ if ext < 0x100 => vec![0xEFBB, 0xBF00 + rng.below(0x100 - ext as usize) as u16],
-            _ => vec![(0xFFFF - ext) as u16],
-        };
+        // last unit ends exactly at 0xFFFF (u16 overflow edge).  Strings that start like a byte order
+        // mark (U+FEFF, U+EFBB U+BFxx) are left to the corner tables.
+        let v = if rng.chance(1, 2) { vec![(0xFFFF - ext) as u16] } else { vec![gen_unit(rng, 0), (0xFFFF - ext) as u16] };
         if wf_str(&v, ext) {
             return v;
         }
@@ -381,6 +376,9 @@ fn gen_table(rng: &mut Rng, big: bool) -> (Vec<Space>, Vec<Def>) {
 struct Style {
     hexcase: usize, // 0 upper, 1 lower, 2 mixed
     wild: bool,     // generous white-space
+    /// grammar probe: separator between array elements other than blanks/tabs ("" or a line end) -
+    /// legal PostScript (the strings are self-delimiting) that lopdf's grammar is known to reject
+    arr_sep: Option<&'static [u8]>,
 }
 
 fn hex_byte(rng: &mut Rng, st: &Style, b: u8, out: &mut Vec<u8>) {
@@ -480,7 +478,10 @@ fn entry(rng: &mut Rng, st: &Style, d: &Def, out: &mut Vec<u8>) {
             }
             for (i, e) in a.iter().enumerate() {
                 if i > 0 {
-                    sp1(rng, st, out);
+                    match st.arr_sep {
+                        Some(sep) => out.extend_from_slice(sep),
+                        None => sp1(rng, st, out),
+                    }
                 }
                 str_tok(rng, st, e, out);
             }
@@ -493,8 +494,8 @@ fn entry(rng: &mut Rng, st: &Style, d: &Def, out: &mut Vec<u8>) {
     eol(rng, st, out);
 }
 
-fn render(rng: &mut Rng, layout: &[Space], defs: &[Def]) -> Vec<u8> {
-    let st = Style { hexcase: rng.below(3), wild: rng.chance(2, 3) };
+fn render(rng: &mut Rng, layout: &[Space], defs: &[Def], arr_sep: Option<&'static [u8]>) -> Vec<u8> {
+    let st = Style { hexcase: rng.below(3), wild: rng.chance(2, 3), arr_sep };
     let mut o: Vec<u8> = vec![];
     // header
     match rng.below(4) {
@@ -638,11 +639,21 @@ fn record(args: &[String]) {
     let mut out = NdjsonOut::create(&arg(args, "--out").unwrap());
     let mut rng = Rng::new(seed ^ 0xC15);
     let corners = if arg_u64(args, "--corners", 1) > 0 { corner_tables() } else { vec![] };
-    let total = n + corners.len() as u64;
+    let nc = corners.len() as u64;
+    // grammar probes: the array corner table once more with "" and with a line end between the elements
+    let probes: u64 = if nc > 0 { 2 } else { 0 };
+    let total = n + nc + probes;
     for r in 0..total {
-        let big = r < n && r % 12 == 11;
-        let (layout, defs) = if r < n { gen_table(&mut rng, big) } else { corners[(r - n) as usize].clone() };
-        let text = render(&mut rng, &layout, &defs);
+        let big = r < n && r % 16 == 15;
+        let arr_sep: Option<&'static [u8]> = if r < n + nc { None } else if r == n + nc { Some(b"") } else { Some(b"\n") };
+        let (layout, defs) = if r < n {
+            gen_table(&mut rng, big)
+        } else if r < n + nc {
+            corners[(r - n) as usize].clone()
+        } else {
+            corners[3].clone()
+        };
+        let text = render(&mut rng, &layout, &defs, arr_sep);
         // codes: ends and interior points of definitions (all of them are mapped codes)
         let mut codes: Vec<Vec<u8>> = vec![];
         let mut order: Vec<usize> = (0..defs.len()).collect();
@@ -673,6 +684,7 @@ fn record(args: &[String]) {
             "defs": defs.iter().map(def_json).collect::<Vec<_>>(),
             "codes": codes, "per": res["per"], "whole": res["whole"], "err": res["err"],
             "text": String::from_utf8_lossy(&text), "variant": variant, "big": big, "corner": r >= n,
+            "gram": if arr_sep.is_some() { "array-ws" } else { "" },
         }));
     }
     out.finish();
